@@ -37,6 +37,7 @@ LEAVES = [
     ("factory", ("optf", "A", 7), "h", [A3]),
     ("listval", ("opt", "M"), "l", [("M", [ABSENT, [1, 2], [2]])]),
     ("domain", ("optdom", "A", None, ("vals", [1, 2])), "h", [("A", [ABSENT, 1, 3])]),
+    ("domain_dsdef", ("optdom", "A", ("ds", "ddef", {"params": [("opt", "B", ("val", 1))]}), ("pred", "p_true")), "h", [A2, B3]),
     ("domain_opt", ("optdom", "A", ("val", 1), ("term", ("opt", "DOM", ("val", [1, 3])))), "h", [("A", [ABSENT, 1, 3]), ("DOM", [ABSENT, [1], [1, 3]])]),
 ]
 LEAF_BY_NAME = {l[0]: l for l in LEAVES}
@@ -182,6 +183,24 @@ def _ctx():
         ANY,
         I,
         lambda h, i: ("map", h, [(_q(i, "m"), ("val", [1, 2])), (_q(i, "k"), ("val", ["x", "y"]))]),
+    )
+    add(
+        "map_sect_ev",
+        ANY,
+        I,
+        # two mapped keys inside one section: the per-element pre-set options must merge, not replace
+        lambda h, i: ("map", h, [("S.X", ("val", [1, 2])), ("S.Y", ("val", [5]))]),
+    )
+    add(
+        "map_disp",
+        ANY,
+        I,
+        # the mapped key is a dispatch value: elements take different branches and read different options
+        lambda h, i: (
+            "mapvalues",
+            ("switch", ("optkey", _q(i, "z")), [("x", h)], ("val", "dflt")),
+            [(_q(i, "z"), ("val", ["y", "x"]))],
+        ),
     )
     add("mapvalues_ev", ANY, I, lambda h, i: ("mapvalues", h, [("A", ("val", [1, 3]))]))
     add(
